@@ -85,6 +85,8 @@ func ruleR29(c *Ctx) {
 				return "", "store to " + text + " whose target cannot be resolved to a local"
 			case !localTo(v) && v.Parent() == m.Pkg.Scope():
 				return "", "store to package-level variable " + v.Name()
+			case !localTo(v) && through && c.runsWithinParent(u) && alwaysFresh(m, declBody(u), v, 0):
+				return "memory allocated by the enclosing call, written by a closure that runs within it (deferred / called on the spot): " + v.Name(), ""
 			case !localTo(v):
 				return "", "store to " + text + ": variable " + v.Name() + " is captured from an enclosing function (state shared between calls of the closure)"
 			case !through:
@@ -152,6 +154,9 @@ func ruleR29(c *Ctx) {
 				if f := m.staticCallee(x); f != nil && f.Pkg() == m.Pkg {
 					return // library callee: analysed as its own unit (reachability)
 				}
+				if _, isLit := ast.Unparen(x.Fun).(*ast.FuncLit); isLit {
+					return // func(){…}(): the literal is a unit of its own
+				}
 				if v := identVar(info, x.Fun); v != nil {
 					if _, isFunc := v.Type().Underlying().(*types.Signature); isFunc {
 						return // func-typed parameter or local closure: closures are units of their own; yield/restore/predicate belong to the caller
@@ -183,7 +188,11 @@ func ruleR29(c *Ctx) {
 				}
 				if strings.HasPrefix(name, "sync.Pool.") {
 					nCalls++
-					report("calls "+name, x.Pos(), "", "a query takes from / releases to the shared node pool")
+					if _, _, isNodePool := c.poolCall(x); isNodePool {
+						report("calls "+name, x.Pos(), "", "a query takes from / releases to the shared node pool")
+					} else {
+						report("calls "+name, x.Pos(), "a scratch pool: sync.Pool is safe for concurrent use and the object is exclusively the caller's between Get and Put (what it carries over is R49's concern)", "")
+					}
 					return
 				}
 				nCalls++
@@ -245,7 +254,6 @@ func (c *Ctx) viaCodecScratch(e ast.Expr) bool {
 	})
 	return found
 }
-
 
 // identOfVar finds the declaring identifier of a parameter variable.
 func identOfVar(u *FuncUnit, v *types.Var, info *types.Info) *ast.Ident {
@@ -313,4 +321,107 @@ func (c *Ctx) argFreshAtCalls(u *FuncUnit, pi int, depth int) (bool, int) {
 		return false, n
 	}
 	return true, n
+}
+
+// declBody: the body of the declaration that encloses u.
+func declBody(u *FuncUnit) ast.Node {
+	r := u
+	for r.Parent != nil {
+		r = r.Parent
+	}
+	return r.Body
+}
+
+// runsWithinParent: the literal of u is only ever deferred or called where it is written
+// (defer func(){…}(), func(){…}()), so it runs during the call that created its captured variables.
+func (c *Ctx) runsWithinParent(u *FuncUnit) bool {
+	if u.Lit == nil || u.Parent == nil {
+		return false
+	}
+	ok := false
+	ast.Inspect(u.Parent.Body, func(n ast.Node) bool {
+		if call, isCall := n.(*ast.CallExpr); isCall && ast.Unparen(call.Fun) == ast.Expr(u.Lit) {
+			ok = true
+		}
+		return true
+	})
+	return ok
+}
+
+// alwaysFresh: every value the local v is ever given (anywhere in the declaration) is memory the
+// library allocated – an allocation, an object taken from a sync.Pool, or an append to / reslice
+// of / dereference of such a variable.
+func alwaysFresh(m *Model, root ast.Node, v *types.Var, depth int) bool {
+	if depth > 4 || v.IsField() || v.Pos() < root.Pos() || v.Pos() > root.End() {
+		return false
+	}
+	info := m.Info
+	if isParamOf(info, root, v) {
+		return false // starts as the caller's
+	}
+	defs := assignedExprs(info, root, v)
+	if len(defs) == 0 {
+		return false
+	}
+	var static func(e ast.Expr) bool
+	static = func(e ast.Expr) bool {
+		e = ast.Unparen(e)
+		if isFreshExpr(m, e) {
+			return true
+		}
+		switch x := e.(type) {
+		case *ast.CompositeLit:
+			return true
+		case *ast.SliceExpr:
+			return static(x.X)
+		case *ast.StarExpr:
+			return static(x.X)
+		case *ast.TypeAssertExpr:
+			call, ok := ast.Unparen(x.X).(*ast.CallExpr)
+			return ok && isSyncPoolCall(info, call, "Get")
+		case *ast.Ident:
+			if tv, ok := info.Types[x]; ok && tv.IsNil() {
+				return true
+			}
+			w, _ := info.ObjectOf(x).(*types.Var)
+			return w != nil && (w == v || alwaysFresh(m, root, w, depth+1))
+		case *ast.CallExpr:
+			if isBuiltinCall(info, x, "make") || isBuiltinCall(info, x, "new") {
+				return true
+			}
+			if isBuiltinCall(info, x, "append") && len(x.Args) > 0 {
+				return static(x.Args[0])
+			}
+			switch m.calleeName(x) {
+			case "bytes.Clone", "slices.Clone":
+				return true
+			}
+		}
+		return false
+	}
+	for _, d := range defs {
+		if !static(d) {
+			return false
+		}
+	}
+	return true
+}
+
+// isParamOf: v is declared by a parameter list of a literal inside root (the parameters of the
+// declaration itself lie before its body and are excluded by position).
+func isParamOf(info *types.Info, root ast.Node, v *types.Var) bool {
+	found := false
+	ast.Inspect(root, func(n ast.Node) bool {
+		if ft, ok := n.(*ast.FuncType); ok && ft.Params != nil {
+			for _, f := range ft.Params.List {
+				for _, nm := range f.Names {
+					if info.Defs[nm] == v {
+						found = true
+					}
+				}
+			}
+		}
+		return true
+	})
+	return found
 }
